@@ -137,6 +137,7 @@ type c15Exp struct {
 	Sid      string
 	Boundary bool // the act coincides with the establishment timeout
 	Detached bool // the leaving party session was not attached to the call's topic
+	RelayGone bool // the party that must get the relay is a session its client has abandoned (reconnected since)
 }
 
 const c15Timeout = 6 * time.Second
@@ -328,6 +329,17 @@ func runC15(t *testing.T, sched simrt.Schedule, prog c15Prog) ([]Violation, RunS
 			default:
 				e.Skip = true
 			}
+			if e.Relay >= 0 {
+				if cl := live[e.Topic]; cl != nil {
+					want := cl.CallerSid
+					if e.Relay == cl.CalleeC && e.Sid == cl.CallerSid {
+						want = cl.CalleeSid
+					}
+					if cur := sidOf(p.Pre, w.Clients[e.Relay]); cur != want {
+						e.RelayGone = true
+					}
+				}
+			}
 		}
 
 		infoCalls := func(cl *SimClient, from int) (res []*MsgServerInfo) {
@@ -468,7 +480,7 @@ func runC15(t *testing.T, sched simrt.Schedule, prog c15Prog) ([]Violation, RunS
 							out = append(out, vio("C15", "relayed-to-third-session "+e.Event, "%s event of call %d from client %d was relayed to client %d (expected only client %d): %s", e.Event, e.Seq, c.Idx, ci, e.Relay, frameSummary(&ServerComMessage{Info: ins[0]})))
 						}
 					}
-					if !w.Clients[e.Relay].Connected {
+					if !w.Clients[e.Relay].Connected || e.RelayGone {
 						// the other party is an abandoned long-polling session: nobody reads its queue
 					} else if n := len(got[e.Relay]); n != 1 {
 						out = append(out, vio("C15", fmt.Sprintf("relay-copies-%d %s", n, e.Event), "%s event of call %d from client %d: client %d must get exactly one {info}, got %d", e.Event, e.Seq, c.Idx, e.Relay, n))
